@@ -31,8 +31,8 @@ Theorem C15_preload_transparent :
 Proof. exact preload_transparent. Qed.
 
 (* 2. Reuse: any number of successive inversions sharing the Preloads object, each reading any attributes in any
-      order, return what the inversion without preloads returns; no slot other than data_vector_mapper (whose function
-      rows the w-tilde class assigns in place) is ever modified. *)
+      order, return what the inversion without preloads returns; NO slot is ever modified (frozen_eq lists all eleven;
+      since /repo 95fc1c6 the w-tilde class assigns the function rows into a copy of a preloaded data_vector_mapper). *)
 Theorem C15_reuse_any_history :
   forall (T : Type) (K : kernels T) (inp : input T) (p : pstore T) (h : list (list qty)),
     factory_slots_neutral inp p ->
@@ -57,7 +57,7 @@ Theorem C15_every_read_is_specified :
     fst (run_history K inp code p h) = map (fun qs => Ok (map (pure K inp mode) qs)) h.
 Proof. exact every_read_is_specified. Qed.
 
-(* 5. The array completed in place remains a valid preload for ever (so a later inversion may start from it). *)
+(* 5. The Preloads object remains a valid set of preloads for ever (so a later inversion may start from it). *)
 Theorem C15_store_stays_consistent :
   forall (T : Type) (K : kernels T) (inp : input T) (p : pstore T) (h : list (list qty)) (mode : option (wtilde T)),
     make_inversion K inp p = Ok mode -> fresh_store K inp mode p -> laws_for K inp mode p ->
@@ -109,11 +109,19 @@ Theorem C15_unguarded_refuted :
   /\ fst (run_inversion zk inpC unguarded empty_store [QDv]) = Ok [PV [1; 1]]%Z
   /\ fst (run_inversion zk inpC code pC [QDv]) = Ok [PV [1; 1]]%Z.
 Proof. exact unguarded_refuted. Qed.
-(* observation (not demanded by the property text): the w-tilde class writes the function rows into a preloaded
-   data_vector_mapper -- the cell changes, the outputs do not (theorem 2) *)
-Theorem C15_completed_in_place :
-  s_dvm pA = Some [2; 2; 0]%Z /\ s_dvm (snd (run_inversion zk inpA code pA [QDv])) = Some [2; 2; 1]%Z.
-Proof. exact pA_completed_in_place. Qed.
+(* 8c. NO slot of the Preloads object is ever modified by the inversions that use it: after any history the object is
+       what it was (record equality).  Instance: the w-tilde class with a function object returns the completed data
+       vector [2;2;1] while the preloaded data_vector_mapper stays [2;2;0] (/repo 95fc1c6; it was completed in place before). *)
+Theorem C15_preloads_never_modified :
+  forall (T : Type) (K : kernels T) (inp : input T) (p : pstore T) (h : list (list qty)),
+    factory_slots_neutral inp p ->
+    (forall mode, make_inversion K inp p = Ok mode -> fresh_store K inp mode p /\ laws_for K inp mode p) ->
+    snd (run_history K inp code p h) = p.
+Proof. exact preloads_never_modified. Qed.
+Example C15_not_completed_in_place :
+  s_dvm pA = Some [2; 2; 0]%Z /\ fst (run_inversion zk inpA code pA [QDv]) = Ok [PV [2; 2; 1]%Z]
+  /\ s_dvm (snd (run_inversion zk inpA code pA [QDv])) = Some [2; 2; 0]%Z.
+Proof. exact pA_not_completed_in_place. Qed.
 
 (* ---- non-vacuity of the hypothesis sets ---- *)
 (* theorems 1-5: a regularized 2-parameter mapper followed by a function object, w-tilde class, ALL eleven slots filled *)
@@ -345,7 +353,7 @@ Print Assumptions C15_noise_check.
 Print Assumptions C15_raise_is_stable.
 Print Assumptions C15_no_copy_refuted.
 Print Assumptions C15_unguarded_refuted.
-Print Assumptions C15_completed_in_place.
+Print Assumptions C15_preloads_never_modified.
 Print Assumptions C15_kernel_identities_hold_for_C04_kernels.
 Print Assumptions C15_preload_transparent_C04_kernels.
 Print Assumptions C15_reuse_any_history_C04_kernels.
